@@ -109,6 +109,13 @@ def classify(c):
     return dict(layer="correspondence", what="real ConsumerGroup and model disagree on an observable (journal / Next results / accounting)", input=None)
 
 
+def generate(ctx=None):
+    """Translator: coq/Gen/Skeleton.v (call and access facts with must-hold locksets) from
+    /repo's current source; Properties/C15.v carries the obligation C15_skeleton_assumptions."""
+    from checks import c10
+    return c10.generate(ctx)
+
+
 def setup():
     L.go_build("c15")
     L.ocaml_build("c15")
@@ -192,6 +199,9 @@ def correspondence(ctx):
 
 def search(ctx, violations):
     """A layer broke without a concrete input: more cases from other seeds."""
+    from checks import c10
+    c10.annotate_skeleton_failure(ctx, violations, "SkeletonConsumerGroup", "consumergroup_assumptions",
+                                  "Model/ConsumerGroup.v", "consumergroup.go")
     ctx.seed += 1000
     ctx.tier = "thorough"
     ctx.thorough = True
